@@ -28,6 +28,20 @@ Fixpoint run_pkts (need nenv : nat) (st : rxs) (ps0 : Z) (ps : list packet_in) :
     (es, sz) :: (if existsb is_fatal es then [] else run_pkts need nenv st1 sz r)
   end.
 
+(* the same with hooks registered on the way: regs = (packet index, more EED hooks, more ENVCHANGE hooks), applied just
+   before the packet with that index is fed *)
+Fixpoint run_pkts_regs (need nenv : nat) (st : rxs) (ps0 : Z) (idx : Z) (regs : list (Z * nat * nat)) (ps : list packet_in)
+  : list (list ev * Z) :=
+  match ps with
+  | [] => []
+  | p :: r =>
+    let need' := fold_left (fun a x => if fst (fst x) =? idx then (a + snd (fst x))%nat else a) regs need in
+    let nenv' := fold_left (fun a x => if fst (fst x) =? idx then (a + snd x)%nat else a) regs nenv in
+    let '(es, st1) := rx_packet need' nenv' st p in
+    let sz := size_after ps0 es in
+    (es, sz) :: (if existsb is_fatal es then [] else run_pkts_regs need' nenv' st1 sz (idx + 1) regs r)
+  end.
+
 Definition out_tree (o : list (list ev * Z)) : tree :=
   TL (map (fun x => TL [TL (map ev_tree (canon (fst x))); TI (snd x)]) o).
 
@@ -174,6 +188,11 @@ Definition rx_fn_run (fn : Z) (i : tree) : tree :=
   | 12 =>
     TL (run_rounds (Z.to_nat (t_int (t_nth 0 i))) (Z.to_nat (t_int (t_nth 1 i))) rx_init [] O (t_list (t_nth 2 i)))
   | 13 => writefail_run i
+  | 14 =>
+    let need := Z.to_nat (t_int (t_nth 0 i)) in
+    let nenv := Z.to_nat (t_int (t_nth 1 i)) in
+    let regs := map (fun r => (t_int (t_nth 0 r), Z.to_nat (t_int (t_nth 1 r)), Z.to_nat (t_int (t_nth 2 r)))) (t_list (t_nth 4 i)) in
+    out_tree (run_pkts_regs need nenv rx_init (t_int (t_nth 2 i)) 0 regs (map packet_of_tree (t_list (t_nth 3 i))))
   | _ => pkg_run fn i
   end.
 
@@ -197,5 +216,12 @@ Definition rx_fn_spec (fn : Z) (i o : tree) : bool :=
     is_prefix_tree got want && is_prefix_tree wantk got && (length got =? length wantk)%nat && (t_int (t_nth 2 o) =? 1)
   | 12 => forallb (fun io => round_drained_ok (fst io) (snd io)) (combine (t_list (t_nth 2 i)) (t_list o))
   | 13 => writefail_spec i o
+  | 14 =>
+    (* every hook registered so far - and no other - is called exactly once per delivered message / member: the events of
+       the model, whose per-package shape is C11_events_of_a_package, with the hook counts in force at each packet *)
+    let need := Z.to_nat (t_int (t_nth 0 i)) in
+    let nenv := Z.to_nat (t_int (t_nth 1 i)) in
+    let regs := map (fun r => (t_int (t_nth 0 r), Z.to_nat (t_int (t_nth 1 r)), Z.to_nat (t_int (t_nth 2 r)))) (t_list (t_nth 4 i)) in
+    tree_eqb o (out_tree (run_pkts_regs need nenv rx_init (t_int (t_nth 2 i)) 0 regs (map packet_of_tree (t_list (t_nth 3 i)))))
   | _ => pkg_spec fn i o
   end.
